@@ -131,6 +131,9 @@ Proof.
   - (* FArm *)
     match goal with A : (if ?b then _ else _) = (_, _) |- _ => destruct b; inversion A; subst end;
       (eapply out_on_ext; [|exact Inv]); val_ext_tac.
+  - (* FOutAdd *)
+    match goal with A : g_add_out_released _ _ = _ |- _ => unfold g_add_out_released in A; inversion A; subst end.
+    eapply out_on_ext; [|exact Inv]. val_ext_tac.
 Qed.
 
 Definition out_inv (s : state) : Prop := out_on (s_nodes s) (s_rrs s).
@@ -150,6 +153,7 @@ Proof.
     eapply out_rr_same; [ | | apply Inv]; reflexivity.
   - simpl in H. destruct (Nat.eqb (n_timer (getN s n)) 1); [|discriminate]. inversion H; subst; clear H. simpl.
     eapply out_on_ext; [|exact Inv]. unfold getN. val_ext_tac.
+  - simpl in H. destruct (Nat.ltb slot (length (s_slots s))); [|discriminate]. inversion H; subst; clear H. exact Inv.
 Qed.
 
 Lemma init_out : forall k progs, out_inv (init k progs).
